@@ -1,7 +1,7 @@
 """pyvc runner: generates the obligations of every contract x configuration from the current
 working tree of /repo, discharges them (z3 one-shot; cvc5 / z3-4.8 CLI as second opinions),
 replays counter-models on the real code, runs negative controls and the engine cross-check."""
-import os, sys, time, json, subprocess, tempfile, fractions, traceback, multiprocessing as mp, re, random
+import zlib, os, sys, time, json, subprocess, tempfile, fractions, traceback, multiprocessing as mp, re, random
 import z3
 from .core import *
 from .interp import Interp, Source, DROPPED
@@ -525,7 +525,7 @@ def crosscheck_task(args):
             for d in shape:
                 if not isinstance(d, int):
                     so.add(I(d) <= 3)
-        rnd = random.Random(seed * 7919 + hash(cname) % 1000)
+        rnd = random.Random(seed * 7919 + zlib.crc32(cname.encode()) % 1000)
         for nm, kind in E.inputs.items():
             if kind == 'float':
                 so.push()
@@ -550,6 +550,14 @@ def crosscheck_task(args):
         E2 = new_engine(mod, src)
         E2.valuation = fval
         fn, cls, _ = src.find(C.func)
+
+        # the inputs were rounded to doubles: the precondition must still hold for the rounded values (exact arithmetic)
+        E2.pc = []
+        st_chk = C.pre_state(E2, cfg)
+        lost = [str(a)[:80] for a in getattr(st_chk, 'assume', []) if not (a if isinstance(a, bool) else z3.is_true(z3.simplify(a)))]
+        if lost:
+            out['skipped'] = 'precondition does not survive rounding of the sampled inputs to doubles'
+            return out
 
         def thunk():
             st2 = C.pre_state(E2, cfg)
